@@ -226,3 +226,61 @@ Example configuration_in_subdirectory_luaurc_alias :
   find_require tgt rcs f src (S "../packages/lib") = Found (Pn ["project"; "packages"; "lib.lua"]) /\
   generate_require tgt src (Pn ["project"; "vendor"; "lib.lua"]) = S "@vendor/lib".
 Proof. vm_compute. repeat split; reflexivity. Qed.
+
+(** ** a target source/alias whose value is exactly the resolved FILE
+
+    [generate_path] writes the alias name alone ([skip(count)] leaves nothing); [strip_target] looks
+    at the GENERATED path (the alias name), not at the resolved file, so nothing is popped even when
+    the file is a module-folder file; the target mode then finds the file as candidate 0 of itself.
+    No "unambiguous" hypothesis is needed: the file only has to exist. *)
+Theorem convert_keeps_target_file_alias :
+  forall (tgt : config) (rcs : rc_files) (f : fs) (src t : path) (name : bytes),
+    simple t = true -> t <> [] ->
+    (* the longest target alias that contains the file is the file itself *)
+    best_alias (project_location tgt src) t (c_sources tgt) None = Some (name, t) ->
+    (* the alias name is an ordinary name that [strip_target] leaves alone *)
+    wf_name name = true ->
+    is_module_folder_name tgt [Norm name] = false -> is_lua_ext (name_ext name) = false ->
+    (* under the target mode the alias name alone designates the file *)
+    head_path tgt (rc_aliases tgt rcs src) src [Norm name] = inl t ->
+    is_file f t = true ->
+    generate_require tgt src t = name /\
+    find_require tgt rcs f src (generate_require tgt src t) = Found t.
+Proof.
+  intros tgt rcs f src t name Ht Hne Hbest Hwf Hmfn Hext Hhead Hfile.
+  assert (Hgen : strip_target tgt (generate_path tgt src t) = [Norm name]).
+  { unfold generate_path.
+    destruct (simple_head_norm t Ht Hne) as (x & r & Et).
+    assert (Hrel : is_require_relative t = false) by (rewrite Et; reflexivity).
+    rewrite Hrel, (normalize_simple false t Ht), Hbest.
+    rewrite skipn_all, parse_path_wf_name by exact Hwf.
+    unfold extend. cbn [fold_left].
+    unfold strip_target. rewrite Hmfn.
+    change (extension [Norm name]) with (name_ext name). rewrite Hext. reflexivity. }
+  assert (Hw : write_require_path [Norm name] = name).
+  { unfold write_require_path. cbn [fold_left write_step orb app]. reflexivity. }
+  unfold generate_require. rewrite Hgen, Hw. split; [reflexivity|].
+  unfold find_require. rewrite parse_path_wf_name by exact Hwf.
+  rewrite (normalize_simple true [Norm name]) by reflexivity.
+  unfold find_require_path. rewrite Hhead. unfold locate.
+  rewrite (normalize_simple true t Ht).
+  unfold candidates. cbn [first_file]. rewrite Hfile. rewrite (normalize_simple true t Ht). reflexivity.
+Qed.
+
+(** [sources: { "@value": "src/value/init.luau" }] (a module-folder file), both target modes; the
+    require reaches the file through another spelling *)
+Example convert_keeps_target_file_alias_instance :
+  let srcs := [(S "@value", Pn ["src"; "value"; "init.luau"]); (S "@vdir", Pn ["src"; "value"])] in
+  let pm := {| c_luau := false; c_mfn := S "init"; c_sources := srcs; c_project := Some []; c_use_rc := false |} in
+  let lm := {| c_luau := true; c_mfn := S "init"; c_sources := srcs; c_project := Some []; c_use_rc := false |} in
+  let f := mk_fs [Pn ["src"; "a.lua"]; Pn ["src"; "value"; "init.luau"]; Pn ["src"; "value.luau"]] in
+  let src := Pn ["src"; "a.lua"] in
+  let t := Pn ["src"; "value"; "init.luau"] in
+  find_require lm [] f src (S "./value/init") = Found t /\
+  best_alias (project_location pm src) t (c_sources pm) None = Some (S "@value", t) /\
+  wf_name (S "@value") = true /\ is_module_folder_name pm [Norm (S "@value")] = false /\
+  head_path pm None src [Norm (S "@value")] = inl t /\ head_path lm None src [Norm (S "@value")] = inl t /\
+  is_file f t = true /\
+  generate_require pm src t = S "@value" /\ generate_require lm src t = S "@value" /\
+  find_require pm [] f src (S "@value") = Found t /\ find_require lm [] f src (S "@value") = Found t.
+Proof. vm_compute. repeat split; reflexivity. Qed.
